@@ -25,6 +25,8 @@ COLS = [
     ("(j.nTrk() / 2)", {"double"}), ("(j.nTrk() if j.pt() > 1 else 2)", {"double", "float"}), ("(j.nTrk() + 1)", {"int"}), ("(j.q() * 2)", {"float", "double"}),
     ("(j.q() + j.pt())", {"double"}), ("j.tags().Count()", {"int"}), ("j.tags().Sum()", {"float", "double"}), ("abs(j.pt())", {"double"}),
     ("(j.pt() ** 2)", {"double"}), ("(-j.nTrk())", {"int"}), ("j.eta()", {"double"}),
+    # a float literal stays floating whatever its value: alone and next to integer operands
+    ("2.0", {"double"}), ("1e10", {"double"}), ("(j.nTrk() * 2.0)", {"double"}), ("(j.nTrk() + 1.0)", {"double"}), ("(3 - 1.0)", {"double"}), ("(j.nTrk() * 2.5)", {"double"}),
 ]
 NAMES = ["a", "b", "col1", "x_1", "pt2"]
 
@@ -66,6 +68,9 @@ def build(backend):
             labels = NAMES[:nlabels]
             add("wrong-count", f"ResultTTree({per.format(out)}, {labels!r}, 'mytree', 'file.root')", None, None, raises=True)
     # event level: scalar, 1-D vectors of every kind, 2-D, mixtures
+    add("ev-scalar-float-literal", f"ds.Select(lambda e: {coll}.Count() * 2.0)", None, [{"double"}])
+    add("ev-scalar-float-literal-dict", f"ds.Select(lambda e: {{'n': {coll}.Count(), 'twice': {coll}.Count() * 2.0, 'big': {coll}.Count() * 1e10, 'half': {coll}.Count() * 0.5}})",
+        ["n", "twice", "big", "half"], [{"int"}, {"double"}, {"double"}, {"double"}])
     add("ev-scalar", f"ds.Select(lambda e: {coll}.Count())", None, [{"int"}])
     for e, t in COLS:
         vt = {f"std::vector<{x}>" for x in t}
